@@ -7,7 +7,8 @@ slots whose contents are replaced for ever, optional transient spikes of live da
 every object kind; caught injected failures inside the loop body (error paths are where a root handle is most
 likely to be leaked). Invariants checked at every allocation event (I1 byte bound, I2 accounting) and over the
 recorded history (I3 object counts N vs 2N iterations, I4 rooted objects N vs 2N, I5 pacing liveness, I6 the number of
-fiber objects alive at quiescence equals the number the program can still reach).
+fiber objects alive at quiescence equals the number the program can still reach, I7 a second interpreter created on the same
+thread after the first was dropped ends with the same live objects).
 """
 import json
 
@@ -230,10 +231,14 @@ class C16:
         faults = fault_plan(rng, ir, 2 * ir["n"])
         return {"ir": ir, "faults": faults}
 
-    def run_one(self, ctx, sc, n, mode):
+    def run_one(self, ctx, sc, n, mode, second_vm=False):
         src = render(sc["ir"], n)
         cfg = {"gc": {"mode": mode, "quarantine": False, "monitor": True}, "max_events": 64}
-        run_sc = {"programs": [{"kind": "snippet", "source": src}], "tape": [], "faults": sc["faults"],
+        progs = [{"kind": "snippet", "source": src}]
+        if second_vm:
+            # the same program again on a second interpreter created on the same thread after the first one was dropped
+            progs += [{"kind": "newvm"}, {"kind": "snippet", "source": src}]
+        run_sc = {"programs": progs, "tape": [], "faults": sc["faults"],
                   "fs": {"c16mod": {"source": C16MOD, "reads": []}, "c16bad": {"source": C16BAD, "reads": []}}, "config": cfg}
         return src, ctx.run("release+hooks", run_sc)
 
@@ -288,6 +293,28 @@ class C16:
                     return res
         res["sample"] = {"source": render(ir, n), "fault_sites": sorted(sc["faults"]),
                          "monitor_N": (hs["N"].get("gc") or {}).get("monitor")}
+        # I7: an interpreter that has been dropped leaves nothing behind: the same program on a second interpreter created on
+        # the same thread (the heap is thread-local and shared) ends with the same live objects as on a first interpreter
+        if sc.get("second_vm", stable_hash(ir) % 3 == 0):
+            src, h = self.run_one(ctx, sc, n, "native", second_vm=True)
+            stats.inc("executions")
+            stats.inc("second_interpreter_runs")
+            po = process_outcome(h)
+            if po:
+                res["violation"] = {"class": po[0], "msg": "[second interpreter] %s" % po[1]}
+                return res
+            st2 = None
+            for e_ in h["programs"][-1]["events"]:
+                if isinstance(e_, list) and e_ and isinstance(e_[0], dict) and "stats" in e_[0]:
+                    st2 = e_[0]["stats"]
+            st1 = stats_of(hs["N"])
+            if st1 is not None and st2 is not None:
+                for t in sorted(set(st1) | set(st2)):
+                    a, bb = st1.get(t, [0, 0, 0]), st2.get(t, [0, 0, 0])
+                    if a[0] != bb[0] or a[2] != bb[2]:
+                        res["violation"] = {"class": "dropped-interpreter-leaves-objects", "msg": "I7: %s: %d objects (%d rooted) at quiescence on a first interpreter, %d (%d rooted) on a second one created after the first was dropped" % (
+                            t, a[0], a[2], bb[0], bb[2])}
+                        return res
         # checksum must not depend on the collector (cheap guard against "bounded because live data was freed")
         if checksum_of(hs["N"]) != checksum_of(hs["never"]):
             res["violation"] = {"class": "checksum", "msg": "program result under native pacing %s differs from never-collect %s" % (
